@@ -493,6 +493,53 @@ def case_numbering(kind):
             err = max(maxabs(new[k].values.ravel() - (old[k].ravel() + parts[k])) for k in range(len(old)))
             run.compare(mon, "api=container+list clause=layout", err, 1e-15, "field + [dx_f] misplaces increments",
                         unit="container+list")
+        # the whole operator x operand table (a flat vector in global numbering, one array per field, another container; at the level of
+        # one field an array in local numbering and another field), binary and in place: each acts on unknown g with operand entry g
+        import operator
+        ops = {"+": (operator.add, operator.iadd), "-": (operator.sub, operator.isub), "*": (operator.mul, operator.imul), "/": (operator.truediv, operator.itruediv)}
+        xv = 1.0 + rng.uniform(0.1, 1.0, M.n)
+        other2 = field.copy()
+        for k, f in enumerate(other2.fields):
+            f.values[:] = xv[M.off[k]: M.off[k] + M.sizes[k]].reshape(f.values.shape)
+        operands = {"vector": lambda: xv.copy(), "list": lambda: [xv[M.off[k]: M.off[k] + M.sizes[k]].copy() for k in range(len(old))], "container": lambda: other2}
+        for opname, (binop, inop) in ops.items():
+            want = [binop(old[k].ravel(), xv[M.off[k]: M.off[k] + M.sizes[k]]) for k in range(len(old))]
+            for oname, make in operands.items():
+                if oname == "list" and len(old) == M.n:
+                    continue
+                for inplace in (False, True):
+                    try:
+                        if inplace:
+                            res_ = field.copy()
+                            res_ = inop(res_, make())
+                        else:
+                            res_ = binop(field, make())
+                    except (TypeError, ValueError, AttributeError) as exc:
+                        run.skip(mon, "container %s %s not supported: %s" % (opname, oname, type(exc).__name__))
+                        continue
+                    err = max(maxabs(res_[k].values.ravel() - want[k]) / max(1.0, maxabs(want[k])) for k in range(len(old)))
+                    run.compare(mon, "api=container%s%s operand=%s clause=layout" % (opname, "=" if inplace else "", oname), err, 1e-14,
+                                "container %s%s %s does not act on unknown g with operand entry g" % (opname, "=" if inplace else "", oname),
+                                unit="operators:container:" + oname, config=("container-op", opname, oname, inplace))
+                    if maxabs(np.concatenate([field[k].values.ravel() - old[k].ravel() for k in range(len(old))])) != 0:
+                        run.fail(mon, "api=container%s operand=%s clause=operand-untouched" % (opname, oname), "a binary / copied in-place operation changed the original container")
+            f0 = field.fields[0]
+            loc = xv[M.off[0]: M.off[0] + M.sizes[0]]
+            for oname, operand in (("array", loc.copy()), ("array-2d", loc.reshape(f0.values.shape).copy()), ("field", other2.fields[0])):
+                for inplace in (False, True):
+                    try:
+                        if inplace:
+                            import copy as _copy
+                            r_ = inop(_copy.deepcopy(f0), operand)
+                        else:
+                            r_ = binop(f0, operand)
+                    except (TypeError, ValueError, AttributeError) as exc:
+                        run.skip(mon, "Field %s %s not supported: %s" % (opname, oname, type(exc).__name__))
+                        continue
+                    run.compare(mon, "api=Field%s%s operand=%s clause=layout" % (opname, "=" if inplace else "", oname),
+                                maxabs(r_.values.ravel() - want[0]) / max(1.0, maxabs(want[0])), 1e-14,
+                                "Field %s%s %s does not act on local unknown (point, component) with the operand's entry" % (opname, "=" if inplace else "", oname),
+                                unit="operators:field:" + oname, config=("field-op", opname, oname, inplace))
         # Field.__getitem__ with local dof numbers
         for k, f in enumerate(field.fields):
             sel = rng.integers(0, M.sizes[k], 7)
@@ -741,7 +788,7 @@ def cases(tier, seed):
 
 SPEC = {
     "required_units": ["partition:disjoint", "partition:cover", "partition:dof0", "boundary:selection", "apply:alignment", "values", "values:column-major-storage", "container+",
-                       "container-", "container+=", "container-=", "container+list", "getitem", "single-entry-assembly",
+                       "container-", "container+=", "container-=", "container+list", "operators:container:vector", "operators:container:list", "operators:container:container", "operators:field:array", "operators:field:field", "getitem", "single-entry-assembly",
                        "solve.partition", "points-without-cells", "fields:2", "fields:3", "loadcase:symmetry",
                        "loadcase:uniaxial", "loadcase:biaxial", "loadcase:shear", "loadcase:uniaxial:values", "loadcase:mixed-container", "loadcase:offset-body", "loadcase:explicit-zero-positions"]
     + ["feature:" + s for s in ("float", "callable", "and", "skip", "pointmask", "dofmask", "array-dim", "array-full", "or2", "three", "array-skip", "mask-skip", "dofmask-skip", "update", "short-skip", "float:exact", "float:within-tolerance")],
